@@ -785,7 +785,36 @@ func c17Run(c *sim.Ctx) {
 				c.OpsDone++
 				c.S.Probe("darklaw_checked")
 			}
+			// a subscriber of a dark peer is served by whoever stands in for it; when the peer is
+			// reachable again but not yet regarded as healthy, the release - entering where the
+			// request entered - must reach the pool that served it
+			var entry *c17node
+			var fsub string
+			for _, b := range before {
+				for k, s := range subs {
+					if dark[b.own[k]] && !b.nd.p.IsPeerHealthy(b.own[k]) && entry == nil {
+						entry, fsub = b.nd, s
+					}
+				}
+			}
+			var aerr error
+			if entry != nil && !c.Failed() {
+				c.S.Join(c.S.Spawn("alloc@"+entry.id, entry.node, func() { _, aerr = entry.p.Allocate(context.Background(), fsub, nil) }))
+			}
 			n.HealAll()
+			if entry != nil && aerr == nil && !c.Failed() {
+				var rerr error
+				c.S.Join(c.S.Spawn("release@"+entry.id, entry.node, func() { rerr = entry.p.Release(context.Background(), fsub) }))
+				c.S.Probe("darklaw_failover_release")
+				if rerr == nil {
+					for _, nd := range w.liveNodes() {
+						if ip, holds := nd.p.VerifLocalHolds(fsub); holds {
+							c.Fail("one-pool", "e2e/release-missed-the-pool/stand-in", "peers %q/%q dark and marked unhealthy at %q: the request for their subscriber %q entering there was served by a stand-in; once the peers were reachable again (still marked unhealthy) Release entering at %q returned nil but node %q's pool still holds it (%s)", x.id, y.id, entry.id, fsub, entry.id, nd.id, ip)
+							break
+						}
+					}
+				}
+			}
 		case "part":
 			a, b := pick(op.Arg(0)), pick(op.Arg(1))
 			if a != b {
@@ -894,11 +923,12 @@ func init() {
 		Real: []string{"pool.PeerPool (GetOwner, IsLocalOwner, rendezvousHash/rendezvousRanked, getHealthyOwner, Allocate/Release with forwarding, healthCheckLoop/checkPeer, AddPeer/RemovePeer, HTTP handlers)",
 			"net/http.Client timeouts, http.ServeMux routing"},
 		Stub:         []string{"network between the nodes (scn.vhNet)"},
-		Rule:         "cases: 1-5 (thorough: up to 8) nodes with generated ids, per-node peer list order/with-or-without-self/partly via AddPeer, then 5-24 ops {stable end-to-end check, hash check, AddPeer, RemovePeer on one/all nodes, partition (sym/one-way, stall/reset), heal, crash, restart, probe loss, sleep around threshold*interval, unhealthy-everywhere law, a forwarded allocate whose answer is lost while the owner stays healthy (then the subscriber is requested everywhere), membership announcements as two overlapping AddPeer calls, request under faults}; non-trivial = >=3 completed operations and (a fault fired or >2 context switches); distinct = distinct (case hash, schedule fingerprint)",
+		Rule:         "cases: 1-5 (thorough: up to 8) nodes with generated ids, per-node peer list order/with-or-without-self/partly via AddPeer, then 5-24 ops {stable end-to-end check, hash check, AddPeer, RemovePeer on one/all nodes, partition (sym/one-way, stall/reset), heal, crash, restart, probe loss, sleep around threshold*interval, unhealthy-everywhere law, a forwarded allocate whose answer is lost while the owner stays healthy (then the subscriber is requested everywhere), membership announcements as two overlapping AddPeer calls, RemovePeer at a node while requests for subscribers it owns itself enter there, one or two peers going dark (black-holed: probes time out) until marked unhealthy - ownership may then move only for their subscribers, and a subscriber served by a stand-in is released through the same node once the peer is reachable again but still marked unhealthy -, request under faults}; non-trivial = >=3 completed operations and (a fault fired or >2 context switches); distinct = distinct (case hash, schedule fingerprint)",
 		QuickRuns:    4000,
 		ThoroughRuns: 200000,
 		Assumptions: []string{"node ids double as addresses (getPeerAddr) and are therefore generated from URL-host-safe strings; no duplicate ids in a configured list; a peer set never contains both x and x:8081 (the repository's address rule makes these two names of one node)",
 			"the end-to-end clause is evaluated only while all live nodes hold the same peer set and the same health view (a node always regards itself as healthy), no partition or probe loss is pending and no dead peer is still regarded as healthy; it uses subscriber ids never requested before, so residue of requests made under divergent views is not held against the code",
-			"ownership under health = the node Allocate/Release would address (getHealthyOwner)"},
+			"ownership under health = the node Allocate/Release would address (getHealthyOwner)",
+			"the dark-peers law judges every remaining node on its own view, after everything else was healed and given (threshold+2) probe intervals to settle; the peers stay dark for 2 x (threshold+2) intervals"},
 	})
 }
